@@ -925,7 +925,11 @@ class Evaluator:
             if isinstance(v, TRef):
                 return Lin.atom(("len", v.path))
             if isinstance(v, list):
+                if any(isinstance(x, tuple) and x and x[0] in ("repeat", "repeatk", "rrepeat") for x in v):
+                    raise Unsupported(f"{self.func.qual}:{e.lineno}: len of a list with loop-built entries")
                 return Lin(len(v))
+            if isinstance(v, tuple) and v and v[0] == "repeatk":
+                return v[2].scale(v[5])
             if isinstance(v, SStr):
                 return Lin.atom(("strlen", repr(v)))
             if isinstance(v, tuple) and v and v[0] == "repeat":
@@ -1147,8 +1151,8 @@ class Evaluator:
         return self.seq_to_bytes(v, node)
 
     def seq_to_bytes(self, item: t.Any, node: ast.AST) -> SBytes:
-        if isinstance(item, tuple) and item and item[0] == "repeat":
-            _, path, count, elem, var = item
+        if isinstance(item, tuple) and item and item[0] in ("repeat", "repeatk"):
+            _, path, count, elem, var = item[:5]
             body = self.seq_to_bytes(elem, node)
             ew = body.length()
             width = ew.scale(1) if False else None
